@@ -109,3 +109,14 @@ Theorem C02_direct_all_states_total_with_base : forall idna_raw c b start ov inp
 Proof. exact direct_all_states_total_with_base. Qed.
 Print Assumptions C02_direct_all_states_total_with_base.
 
+(* histories rooted at Parser.NewUrl() (the empty record, not a parse result): every finite sequence of setter / resolve / clone /
+   SearchParams / SetSearchParams / Iterate operations on it returns normally too, and every getter keeps working *)
+Theorem C02_new_url_histories_total : forall idna_raw c i ops,
+  slots_wf (Total.hfold idna_raw c (Some (empty_url i), None) ops) /\
+  Forall (fun r : list str * list str * list str => fst (fst r) <> panic_marker) (hrun idna_raw c (Some (empty_url i), None) ops).
+Proof.
+  intros idna_raw c i ops. apply history_total. intros slot u H. destruct slot; cbn in H; [discriminate|].
+  injection H as <-. unfold wf. cbn. discriminate.
+Qed.
+Print Assumptions C02_new_url_histories_total.
+
